@@ -242,7 +242,9 @@ theorem ctxGetNode_noReq (root : Node) (rs : Bool) (p : Path) (st : EvSt) :
   intro ps
   simp only [ctxGetNode]
   split
-  · split <;> intro h <;> cases h
+  · split
+    · split <;> intro h <;> cases h
+    · intro h; cases h
   · split <;> intro h <;> cases h
 
 theorem xrefLoop_noReq (rec : Rec) (h : RecNoReq rec) (root : Node) (rs : Bool) (self : Path) :
@@ -262,6 +264,7 @@ theorem xrefLoop_noReq (rec : Rec) (h : RecNoReq rec) (root : Node) (rs : Bool) 
         intro he
         exact ctxGetNode_noReq root rs tp st ps (by rw [hg]; simpa using he)
       | ok g =>
+        obtain ⟨g, st1⟩ := g
         cases g with
         | value v => simp only; split <;> intro he <;> cases he
         | node nd =>
@@ -408,8 +411,8 @@ theorem evalNodeF_noReq (root : Node) (w : World) : ∀ fuel, RecNoReq (evalNode
       cases hc : plookup p st0.cache with
       | some v =>
         simp only
-        by_cases h2 : (rs && st0.tainted.contains p) = true
-        · rw [if_pos h2]; intro he; cases he
+        by_cases h2 : st0.tainted.contains p = true
+        · rw [if_pos h2]; split <;> intro he <;> cases he
         · rw [if_neg h2]; intro he; cases he
       | none =>
         simp only
